@@ -266,7 +266,7 @@ def _bounded_restructure(tier, seed):
 
     def same(a_, b_):
         return all(np.array_equal(a_[v], b_[v], equal_nan=True) if a_[v].dtype.kind == "f" else np.array_equal(a_[v], b_[v]) for v in a_)
-    n = 6 if tier == "quick" else 40
+    n = 14 if tier == "quick" else 56
     for k in range(n):
         # concatenate N spectra along a new dimension, select the i-th
         N = int(rng.integers(1, 7))
@@ -301,14 +301,20 @@ def _bounded_restructure(tier, seed):
         s.dataset["variance_density"].values[0, 2] = np.nan
         other = mk1(3)
         ops = [lambda x: x + other, lambda x: x - other, lambda x: -x, lambda x: x.bandpass(), lambda x: x.bandpass(0.05, 0.3), lambda x: x.copy(deep=True), lambda x: x.copy(deep=False),
-               lambda x: x.multiply(np.full(x.shape(), 2.0)), lambda x: x.isel(time=slice(0, 2)), lambda x: x.mean(dim="time"), lambda x: x.sum(dim="time")]
+               lambda x: x.multiply(np.full(x.shape(), 2.0)), lambda x: x.isel(time=slice(0, 2)), lambda x: x.mean(dim="time"), lambda x: x.sum(dim="time"),
+               lambda x: x.interpolate_frequency(np.linspace(0.04, 0.4, 7)), lambda x: x.interpolate_frequency(np.linspace(0.04, 0.4, 7), method="nearest"),
+               lambda x: x.interpolate_frequency(np.linspace(0.04, 0.4, 7), method="spline")]
         cur = s
         chain = [(s, snap(s)), (other, snap(other))]
-        for step in range(int(rng.integers(1, 7))):
-            op = ops[int(rng.integers(0, len(ops)))]
+        nsteps = int(rng.integers(1, 7))
+        for step in range(nsteps):
+            # every operation is used as the first step of some round, the rest is random
+            op = ops[k % len(ops)] if step == 0 else ops[int(rng.integers(0, len(ops)))]
             try:
                 nxt = op(cur)
             except Exception:
+                # an operation that fails (e.g. the spline method without its optional solver) must still leave its operand alone
+                evals += 1
                 break
             evals += 1
             if nxt is cur or nxt.dataset is cur.dataset:
@@ -316,11 +322,12 @@ def _bounded_restructure(tier, seed):
             nxt_probe = nxt.copy(deep=False)
             chain.append((nxt, snap(nxt)))
             cur = nxt
-        try:
-            cur.fillna(0.0)          # in-place change of the LAST result must not reach any earlier object
-        except Exception:
-            pass
-        for obj, b_ in chain[:-1]:
+        if len(chain) > 2:
+            try:
+                cur.fillna(0.0)          # in-place change of the LAST result must not reach any earlier object
+            except Exception:
+                pass
+        for obj, b_ in (chain[:-1] if len(chain) > 2 else chain):
             if not same(b_, snap(obj)):
                 fails.append({"case": k, "what": "an operand was modified by a later operation / by an in-place change of a result"})
                 break
